@@ -537,8 +537,11 @@ def _check_offsets(ctx: Ctx, exp, q, saver, loop: ast.For, which, valp, entp, gv
         if use_stmt and top.index(inc) < top.index(use_stmt[0]):
             problems.append(f"`{u(inc)}` precedes the slice that uses `{off}`")
     inits = [s for s in stmts_local(saver) if isinstance(s, ast.Assign) and any(isinstance(t, ast.Name) and t.id == off for t in s.targets)]
-    if not (len(inits) == 1 and isinstance(inits[0].value, ast.Constant) and inits[0].value.value == 0 and inits[0] in saver.body):
-        problems.append(f"`{off}` is not initialised to 0 once before the loops")
+    if len(inits) > 1 or (len(inits) == 1 and not (isinstance(inits[0].value, ast.Constant) and inits[0] in saver.body)):
+        raise Undecided(f"{q}: `{off}` is (re)assigned in a way that is not a single literal initialisation: "
+                        f"{[u(s) for s in inits]}")
+    if not inits or inits[0].value.value != 0:
+        problems.append(f"`{off}` is not initialised to 0 before the loops")
     ctx.check("R2", not problems, exp, q, loop,
               f"reader chops the concatenated data per grid ({which}): " + "; ".join(problems),
               construct=f"reader offsets ({which}): " + ("ok" if not problems else "; ".join(problems)), facts=facts,
@@ -634,9 +637,10 @@ def _r3_renumbering(ctx: Ctx, exp, E: ast.ClassDef) -> None:
                 holder = [s for s in top if a in list(ast.walk(s))]
                 if holder and top.index(tinc[0]) < top.index(holder[0]):
                     problems.append(f"`{u(tinc[0])}` precedes `{u(a)[:50]}` (ids of the first grid would start at its own size)")
-                inits = [s for s in fn.body if isinstance(s, ast.Assign) and any(isinstance(t, ast.Name) and t.id == o for t in s.targets)]
-                if not (len(inits) == 1 and isinstance(inits[0].value, ast.Constant) and inits[0].value.value == 0
-                        and fn.body.index(inits[0]) < fn.body.index(loop)):
+                inits = [s for s in stmts_local(fn) if isinstance(s, ast.Assign) and any(isinstance(t, ast.Name) and t.id == o for t in s.targets)]
+                if len(inits) != 1 or not isinstance(inits[0].value, ast.Constant) or inits[0] not in fn.body:
+                    raise Undecided(f"{q}: offset `{o}` is not initialised by a single literal assignment: {[u(s) for s in inits]}")
+                if inits[0].value.value != 0 or fn.body.index(inits[0]) > fn.body.index(loop):
                     problems.append(f"offset `{o}` is not initialised to 0 before the grid loop")
         ctx.check("R3", not problems, exp, q, loop,
                   "cell_ids index the per-dimension concatenation of all grids: " + "; ".join(problems),
